@@ -171,11 +171,9 @@ impl<K: Ord, V: Val<A> + Debug, A: Ord + Hash + Clone + Debug> CmRDT for Map<K, 
                 self.clock
                     .validate_op(dot)
                     .map_err(CmRDTValidation::SourceOrder)?;
+                // The entry clock only holds the dots of updates to this key, so
+                // it is sparse by design and can't be used to check dot continuity.
                 let entry = self.entries.get(key).cloned().unwrap_or_default();
-                entry
-                    .clock
-                    .validate_op(dot)
-                    .map_err(CmRDTValidation::SourceOrder)?;
                 entry.val.validate_op(op).map_err(CmRDTValidation::Value)
             }
         }
